@@ -30,6 +30,14 @@ pub struct Case {
     pub chunk_size: u16,
     pub apply_batches: Vec<u8>,
     pub replay_batches: Vec<u8>,
+    /// the installing node had applied this many entries itself (mapped into 0..=last_included) before the
+    /// snapshot arrives: a lagging follower, whose own write-ahead records are older than the snapshot
+    #[serde(default)]
+    pub b_prefix: u16,
+    /// restart the installing node (drop + reopen from its directory) right after the install: what it
+    /// recovers must be the installed snapshot, not a mix with what it held before
+    #[serde(default)]
+    pub restart_after_install: bool,
 }
 
 pub struct C16;
@@ -71,8 +79,11 @@ impl Check for C16 {
             prop_oneof![Just(64u16), Just(1024u16), 16u16..4096],
             proptest::collection::vec(1u8..=4, 1..4),
             proptest::collection::vec(1u8..=4, 1..4),
+            (prop_oneof![1 => Just(0u16), 2 => any::<u16>()], any::<bool>()),
         )
-            .prop_map(|(rocks, log, snap_at, retained, concurrent, chunk_size, apply_batches, replay_batches)| Case {
+            .prop_map(|(rocks, log, snap_at, retained, concurrent, chunk_size, apply_batches, replay_batches, (b_prefix, restart_after_install))| Case {
+                b_prefix,
+                restart_after_install,
                 rocks,
                 log,
                 snap_at,
@@ -100,6 +111,11 @@ fn lease_sig(rocks: bool, b: &std::collections::BTreeMap<Vec<u8>, u128>, a: &std
     if a.keys().any(|k| !b.contains_key(k)) {
         // the snapshot formats (and restore code) of the two engines are unrelated: separate root causes
         if rocks { "C16:leases-lost-by-rocksdb-snapshot-install" } else { "C16:leases-lost-by-file-snapshot-install" }
+    } else if !rocks {
+        // same root cause seen from the other side: the File install never reaches lease.reload(), so the leases
+        // the installing node registered itself before the snapshot arrived survive although the snapshot does
+        // not contain them
+        "C16:stale-leases-survive-file-snapshot-install"
     } else {
         "C16:leases-differ-after-snapshot-install"
     }
@@ -141,7 +157,7 @@ async fn run_case<E: Eng>(c: &Case) -> Outcome {
                 break 'body;
             }
         };
-        let b = match Node::<E>::open(&root.join("b"), 2, chunk_size, retained as u64).await {
+        let mut b = match Node::<E>::open(&root.join("b"), 2, chunk_size, retained as u64).await {
             Ok(x) => x,
             Err(e) => {
                 harness_err = Some(e);
@@ -281,6 +297,15 @@ async fn run_case<E: Eng>(c: &Case) -> Outcome {
             }
         });
         let cur_term = *terms.last().unwrap();
+        // the installing node may have applied a prefix of the log itself (never beyond the snapshot boundary)
+        let bp = pick(c.b_prefix, li + 1);
+        if bp > 0 {
+            if let Err(e) = b.apply(&entries[..bp], &c.apply_batches).await {
+                harness_err = Some(e);
+                break 'body;
+            }
+            out.add_label("installer_had_own_prefix");
+        }
         let res = b.h.apply_snapshot_stream_from_leader(cur_term, rx, ack_tx, &b.cfg).await;
         let _ = feeder.await;
         let _ = drain.await;
@@ -290,6 +315,34 @@ async fn run_case<E: Eng>(c: &Case) -> Outcome {
         }
         out.add_label("installed");
         let b_inst = b.observe();
+        if c.restart_after_install {
+            // restart of the installing node right after the install
+            drop(b);
+            b = match Node::<E>::open(&root.join("b"), 2, chunk_size, retained as u64).await {
+                Ok(x) => x,
+                Err(e) => {
+                    findings.push(Finding { prio: 0, sig: "C16:cannot-reopen-after-snapshot-install", detail: e });
+                    break 'body;
+                }
+            };
+            out.add_label("restart_after_install");
+            let b_re = b.observe();
+            match (b_inst.contents(), b_re.contents()) {
+                (Ok(x), Ok(y)) if x != y => findings.push(Finding {
+                    prio: 0,
+                    sig: "C16:state-after-restart-differs-from-installed-snapshot",
+                    detail: format!("B right after the install {} but after a restart {} (B had applied {} entries itself before the snapshot ending at {} arrived)", show_kv(x), show_kv(y), bp, label.index),
+                }),
+                _ => {}
+            }
+            if b_re.last_applied.0 < b_inst.last_applied.0 {
+                findings.push(Finding {
+                    prio: 1,
+                    sig: "C16:applied-index-regressed-by-restart-after-install",
+                    detail: format!("B last_applied {:?} right after the install, {:?} after a restart", b_inst.last_applied, b_re.last_applied),
+                });
+            }
+        }
         if b.h.last_applied() != label.index {
             out.add_label("handler_last_applied_not_reset_by_install");
         }
